@@ -76,6 +76,7 @@ def write_env(prog, f_write):
 
 def body(ctx):
     prog = ctx.load(True)
+    reply_capacity(ctx, prog)    # also records what ChannelSlot::new puts into fields the harness does not know
     ctx.assume("a successful write accepts at least one byte of a non-empty slice and at most the slice (std::io::Write contract; Ok(0) would spin the loop and is outside the fault model)")
     ctx.assume("frame generators obey the cookie-factory contract: on a buffer shorter than pos+L they demand a size in (len, pos+L], otherwise they write exactly L bytes at pos")
     viol = []
